@@ -75,6 +75,9 @@ func (r *BatchedPrivateTokenRequest) Unmarshal(data []byte) bool {
 	}
 
 	l, offset := quicwire.ConsumeVarint(data[3:])
+	if offset < 0 || l > uint64(len(data)-3-offset) {
+		return false
+	}
 	s.Skip(offset)
 	blindedRequests := make([]byte, l)
 	if !s.ReadBytes(&blindedRequests, len(blindedRequests)) {
